@@ -63,7 +63,7 @@ Definition tokens_ok (ops : list pop) : bool :=
   forallb (fun o => match o with OSetToken t => len t <=? 8 | _ => true end) ops.
 
 (* C01 on an observation: the state denotes the specified message, the bytes are its wire
-   image, and decoding them gives back a packet denoting the same message *)
+   image, and decoding them gives back a packet with exactly that message's fields *)
 Definition verdict10 (s out : list N) : bool :=
   match rd_case10 s with
   | None => false
@@ -77,7 +77,7 @@ Definition verdict10 (s out : list N) : bool :=
         match rd_bytes r1 with
         | Some (bs, 0 :: r2) =>
           match rd_packet r2 with
-          | Some (p', []) => amsg_eqb (abs p) m && bytes_eqb bs (wire_image m) && amsg_eqb (abs p') m
+          | Some (p', []) => amsg_eqb (abs p) m && bytes_eqb bs (wire_image m) && amsg_eqb (view p') m
           | _ => false
           end
         | _ => false
